@@ -1,7 +1,7 @@
 PROP = {"engines": [("spool", "default")],
         "level_text": "Coq theorems C12_malloc/C12_calloc/C12_free_*/C12_reset/C12_accounting/C12_reachable: for every request size in the size_t domain, "
                       "every pool size and every history of malloc/calloc/free/reset, granted blocks lie inside the region above all live blocks (disjoint), "
-                      "refusals change nothing, calloc blocks are zero, used+free = size and used = sum of live block lengths. The bounds tests are regenerated "
+                      "refusals change nothing, calloc blocks are zero, used+free = size and used = sum of live block lengths. The bounds tests are re-translated (and proved equal to the model's) "
                       "from cc_static_pool.c on every run; the model runs against the compiled code (canary bytes around the region, an independent overlap "
                       "monitor in the harness) on all op sequences of length <= 4 (5 thorough) over small pools plus random histories.",
         "assumptions": ["pointer arithmetic data_buf + offset + size does not overflow the address space",
